@@ -1,6 +1,27 @@
 /-
-  ICG.Driver.Mul — line protocol of domain `mul` (stub; to be replaced by the domain owner).
+  ICG.Driver.Mul — line protocol of domain `mul` (multiplicative factors, Max-XOS approximation).
+
+  Numbers are exact rationals `p/q`.  A table `<T>` is four tokens `<n> <known> <lo> <hi>`: the number of
+  players, `2^n` characters `0`/`1`, two vectors of `2^n` rationals (a complete game: `known` all `1`,
+  `lo = hi`).  Answers are canonical text, or `err:<kind>` where the Python call raises.
+
+    mul factor <num> <den>                     → value | err:…     raw vectors of any length, entries may be `nan`
+    mul toapprox <T game> <T approx>           → value | err:…     mul_factor_to_approximation
+    mul upperapprox <T approx> <T incomplete>  → value | err:…     mul_factor_upper_to_approximation
+    mul tolower <T game> <T incomplete>        → value | err:…     mul_factor_to_lower_bound
+    mul lowerupper <T incomplete>              → value | err:…     mul_factor_lower_upper_bound
+    mul kr <n>                                 → `<exponents k of the entries 2^k·√n> <r values>`   (the final
+                                                 k-value `n` is implicit)
+    mul xos <T> <coalition>                    → `<additive vector, n entries> <queried ids>` | err:…
+    mul maxsub <T> <coalition> <sq> <eps>      → `<constructed> <queried ids>` | err:…
+                                                 `sq` = size² (the test is `(len+1)² ≥ sq`; size ≤ 0: `0`)
+    mul cands <T> <alpha> <beta> <eps>         → `<candidate array> <unique queried ids>` | err:…
+    mul approx <T> <alpha> <beta> <array>      → values (2^n entries) | err:…
+    mul maxxos <T> <alpha> <beta> <eps>        → `<unique queried ids> <values>` | err:…
+
+  A candidate array is rows `;` cells `|` ids `,` with `-` for an empty cell.
 -/
+import ICG.Model.Mul
 import ICG.Driver.Proto
 namespace ICG.Driver.Mul
 open ICG ICG.Proto
@@ -8,6 +29,95 @@ open ICG ICG.Proto
 abbrev State := Unit
 def init : State := ()
 
-def handle (s : State) (_ : List String) : State × String := (s, "bad-op")
+def parseVec? (n : Nat) (s : String) : Option (Nat → Rat) := do
+  let l ← parseRats? s
+  if l.length = 2 ^ n then
+    let a := l.toArray
+    some (fun c => a[c]?.getD 0)          -- rows ≥ 2^n are never read (`Table.getValue` checks the id first)
+  else none
+
+def parseKnown? (n : Nat) (s : String) : Option (Nat → Bool) :=
+  let l := s.toList
+  if l.length = 2 ^ n ∧ l.all (fun ch => ch == '0' || ch == '1') then
+    let a := l.toArray
+    some (fun c => a[c]?.getD '0' == '1')
+  else none
+
+def parseTable? (n known lo hi : String) : Option (Table Rat) := do
+  let n ← n.toNat?
+  let k ← parseKnown? n known
+  let l ← parseVec? n lo
+  let h ← parseVec? n hi
+  some { n := n, known := k, lo := l, hi := h }
+
+def parseRatN? (s : String) : Option (Option Rat) :=
+  if s = "nan" then some none else (parseRat? s).map some
+
+def parseRatsN? (s : String) : Option (List (Option Rat)) := parseList? parseRatN? s
+
+def showE {β} (f : β → String) : Except Err β → String
+  | .ok x => f x
+  | .error e => toString e
+
+def showCell (c : List Nat) : String := showNats c
+def showRow (row : List (List Nat)) : String := "|".intercalate (row.map showCell)
+def showArray (a : List (List (List Nat))) : String := ";".intercalate (a.map showRow)
+
+def parseArray? (s : String) : Option (List (List (List Nat))) :=
+  (s.splitOn ";").mapM (fun row => (row.splitOn "|").mapM parseNats?)
+
+def handle (s : State) : List String → State × String
+  | ["factor", num, den] =>
+    match parseRatsN? num, parseRatsN? den with
+    | some a, some b => (s, showE showRat (Mul.AtRat.factorN a b))
+    | _, _ => (s, "bad-op")
+  | ["toapprox", n1, k1, l1, h1, n2, k2, l2, h2] =>
+    match parseTable? n1 k1 l1 h1, parseTable? n2 k2 l2 h2 with
+    | some g, some a => (s, showE showRat (Mul.AtRat.toApproximation g a))
+    | _, _ => (s, "bad-op")
+  | ["upperapprox", n1, k1, l1, h1, n2, k2, l2, h2] =>
+    match parseTable? n1 k1 l1 h1, parseTable? n2 k2 l2 h2 with
+    | some a, some i => (s, showE showRat (Mul.AtRat.upperToApproximation a i))
+    | _, _ => (s, "bad-op")
+  | ["tolower", n1, k1, l1, h1, n2, k2, l2, h2] =>
+    match parseTable? n1 k1 l1 h1, parseTable? n2 k2 l2 h2 with
+    | some g, some i => (s, showE showRat (Mul.AtRat.toLowerBound g i))
+    | _, _ => (s, "bad-op")
+  | ["lowerupper", n, k, l, h] =>
+    match parseTable? n k l h with
+    | some i => (s, showE showRat (Mul.AtRat.lowerUpperBound i))
+    | none => (s, "bad-op")
+  | ["kr", n] =>
+    match n.toNat? with
+    | some n => (s, s!"{showNats (Mul.kExps n)} {showNats (Mul.rVals n)}")
+    | none => (s, "bad-op")
+  | ["xos", n, k, l, h, c] =>
+    match parseTable? n k l h, c.toNat? with
+    | some t, some c =>
+      (s, showE (fun (r : List (Nat × Rat) × List Nat) => s!"{showRats (Mul.avVector t.n r.1)} {showNats r.2}")
+            (Mul.AtRat.approxXos t c))
+    | _, _ => (s, "bad-op")
+  | ["maxsub", n, k, l, h, c, sq, eps] =>
+    match parseTable? n k l h, c.toNat?, parseRat? sq, parseRat? eps with
+    | some t, some c, some sq, some eps =>
+      (s, showE (fun (r : Nat × List Nat) => s!"{r.1} {showNats r.2}")
+            (Mul.AtRat.maxSubroutine t c (fun m => decide (sq ≤ ((m * m : Nat) : Rat))) eps))
+    | _, _, _, _ => (s, "bad-op")
+  | ["cands", n, k, l, h, alpha, beta, eps] =>
+    match parseTable? n k l h, parseRat? alpha, parseRat? beta, parseRat? eps with
+    | some t, some a, some b, some e =>
+      (s, showE (fun (r : List (List (List Nat)) × List Nat) => s!"{showArray r.1} {showNats r.2}")
+            (Mul.AtRat.candidates t a b e))
+    | _, _, _, _ => (s, "bad-op")
+  | ["approx", n, k, l, h, alpha, beta, arr] =>
+    match parseTable? n k l h, parseRat? alpha, parseRat? beta, parseArray? arr with
+    | some t, some a, some b, some cands => (s, showE showRats (Mul.AtRat.computeApproximation t cands a b))
+    | _, _, _, _ => (s, "bad-op")
+  | ["maxxos", n, k, l, h, alpha, beta, eps] =>
+    match parseTable? n k l h, parseRat? alpha, parseRat? beta, parseRat? eps with
+    | some t, some a, some b, some e =>
+      (s, showE (fun (r : List Nat × List Rat) => s!"{showNats r.1} {showRats r.2}") (Mul.AtRat.maxXos t a b e))
+    | _, _, _, _ => (s, "bad-op")
+  | _ => (s, "bad-op")
 
 end ICG.Driver.Mul
